@@ -4,6 +4,7 @@ import (
 	"fmt"
 	"go/token"
 	"go/types"
+	"strconv"
 	"strings"
 
 	"golang.org/x/tools/go/ssa"
@@ -297,8 +298,24 @@ func (x *Exec) makeSlice(fr *Frame, st *State, ins *ssa.MakeSlice) Value {
 	arr := x.newRefIn(fr, st, "mkslice")
 	sv := SliceV{Arr: arr, Off: "0", Len: ln, Cap: cp, Typ: ins.Type()}
 	elem := ins.Type().Underlying().(*types.Slice).Elem()
-	x.zeroElems(st, elem, arr)
+	if n, err := strconv.Atoi(cp); err == nil && n <= 8 && structOf(elem) != nil {
+		x.zeroArray(st, elem, arr, n)
+	} else {
+		x.zeroElems(st, elem, arr)
+	}
 	return sv
+}
+
+// zeroArray zero-initialises the n elements of a freshly allocated array.
+func (x *Exec) zeroArray(st *State, elem types.Type, arr Term, n int) {
+	if structOf(elem) == nil {
+		x.zeroElems(st, elem, arr)
+		return
+	}
+	z := x.smt.zeroValue(elem)
+	for k := 0; k < n; k++ {
+		x.storeAt(st, x.elemRef(elem, arr, IntLit(int64(k))), elem, z, 0)
+	}
 }
 
 func (x *Exec) zeroElems(st *State, elem types.Type, arr Term) {
@@ -311,7 +328,16 @@ func (x *Exec) zeroElems(st *State, elem types.Type, arr Term) {
 	for i, l := range leafShape(elem) {
 		name := "E." + typeName(elem) + l.suffix
 		s := arrSort(SRef, arrSort(SInt, l.sort))
-		x.setArr(st, name, s, Store(x.arr(st, name, s), arr, "((as const "+arrSort(SInt, l.sort)+") "+constLit(zs[i])+")"))
+		var za Term
+		if l.sort == SStr {
+			// no literal of the uninterpreted string sort exists for (as const ...): cvc5
+			// wants a value there, so the all-"" array is a constant with a defining fact
+			za = m.fresh("zeros", arrSort(SInt, l.sort))
+			m.assume("(forall ((i Int)) (! (= (select " + za + " i) " + zs[i] + ") :pattern ((select " + za + " i))))")
+		} else {
+			za = "((as const " + arrSort(SInt, l.sort) + ") " + constLit(zs[i]) + ")"
+		}
+		x.setArr(st, name, s, Store(x.arr(st, name, s), arr, za))
 	}
 }
 
